@@ -110,6 +110,86 @@ func (f *file) makeChanCap(fnName, name string) (int64, bool) {
 	return val, found
 }
 
+
+// dispatchCtx inspects ServantProxy.TarsInvoke: X is the variable assigned by
+// `X, cancel = context.WithTimeout(P, timeout)` (the context that carries the per-call / configured
+// timeout when the caller's context P has no deadline). For every call site that leads to doInvoke —
+// the legacy single filter `app.allFilters.cf(…)`, the middleware chain `cf(…)`, the direct
+// `s.doInvoke(…)` — and for the pre / post filters `v(…)` it reports 1 iff the first argument is X.
+func (f *file) dispatchCtx(fnName string) (map[string]int64, bool) {
+	fd := f.funcDecl(fnName)
+	if fd == nil {
+		return nil, false
+	}
+	x, from := "", ""
+	ast.Inspect(fd, func(n ast.Node) bool {
+		as, ok := n.(*ast.AssignStmt)
+		if !ok || len(as.Rhs) != 1 || len(as.Lhs) != 2 {
+			return true
+		}
+		call, ok := as.Rhs[0].(*ast.CallExpr)
+		if !ok || exprStr(f.fset, call.Fun) != "context.WithTimeout" || len(call.Args) != 2 {
+			return true
+		}
+		x, from = exprStr(f.fset, as.Lhs[0]), exprStr(f.fset, call.Args[0])
+		return false
+	})
+	if x == "" {
+		anchorLost("%s: %s: `X, cancel = context.WithTimeout(ctx, timeout)` not found", f.path, fnName)
+		return nil, false
+	}
+	param := ""
+	if fd.Type.Params != nil && len(fd.Type.Params.List) > 0 && len(fd.Type.Params.List[0].Names) > 0 {
+		param = fd.Type.Params.List[0].Names[0].Name
+	}
+	out := map[string]int64{"FromParam": 0}
+	if from == param && param != "" {
+		out["FromParam"] = 1
+	}
+	nv := 0
+	ast.Inspect(fd, func(n ast.Node) bool {
+		call, ok := n.(*ast.CallExpr)
+		if !ok || len(call.Args) == 0 {
+			return true
+		}
+		key := ""
+		switch exprStr(f.fset, call.Fun) {
+		case "app.allFilters.cf":
+			key = "Single"
+		case "cf":
+			key = "Middleware"
+		case "s.doInvoke":
+			key = "Direct"
+		case "v":
+			if nv == 0 {
+				key = "Pre"
+			} else {
+				key = "Post"
+			}
+			nv++
+		default:
+			return true
+		}
+		if _, dup := out[key]; dup {
+			anchorLost("%s: %s: more than one call site of kind %s", f.path, fnName, key)
+			return true
+		}
+		if exprStr(f.fset, call.Args[0]) == x {
+			out[key] = 1
+		} else {
+			out[key] = 0
+		}
+		return true
+	})
+	for _, k := range []string{"Single", "Middleware", "Direct", "Pre", "Post"} {
+		if _, ok := out[k]; !ok {
+			anchorLost("%s: %s: dispatch call site %s not found", f.path, fnName, k)
+			return nil, false
+		}
+	}
+	return out, true
+}
+
 func c08AppendUnique(l []string, names ...string) []string {
 	for _, n := range names {
 		dup := false
@@ -176,6 +256,12 @@ func init() {
 		} {
 			v, ok = st.varInit(kv[1])
 			add(kv[0], v, ok)
+		}
+		// TarsInvoke: every dispatch path hands doInvoke the context that carries the effective deadline
+		if dc, ok := sv.dispatchCtx("ServantProxy.TarsInvoke"); ok {
+			for _, k := range []string{"FromParam", "Single", "Middleware", "Direct", "Pre", "Post"} {
+				add("callCtxSite"+k, dc[k], true)
+			}
 		}
 		em := parse("tars/endpointmanager.go")
 		v, ok = em.callArgLit("endpointManager.preInvoke", "atomic.AddInt32", 0, "&e.invokeNum", 1)
